@@ -9,12 +9,36 @@ ElementTree and handed to the real `omml_to_latex`. Oracle clauses:
   symbols    - each mapped symbol run (alpha, infinity, R) yields its command, as often as it occurs
   balance    - for trees without literal brace runs: brace depth never negative and ends at 0
   template   - on the well-formed subset the output equals the reference transcription (ref_latex)
+  emit       - every run's text (split at bracket characters, each segment mapped through the symbol table and
+               stripped of outer whitespace) occurs in the output, as disjoint substrings in source order
+
+Text alphabet (families T*): a run text is either a legacy token ("L" = unique label, else the literal string) or a
+list of pieces (0 = unique label, str = literal). The character alphabet is every code point of the Unicode blocks the
+symbol table touches - Latin-1 supplement, Greek, Letterlike, Arrows, Mathematical Operators - i.e. EVERY mapped symbol
+and every unmapped neighbour inside the same blocks, plus printable ASCII, TAB/LF, Unicode spaces, a sample of other
+planes (combining marks, General Punctuation, angle brackets, Supplemental Math Operators, Mathematical Alphanumerics,
+CJK, astral); thorough: those extra blocks completely. The label characters (digits, U+00C0-U+00DE) are the only
+exclusions. Each character is put alone in a run, between two labels of one run, between two mapped symbols of one run,
+in a numerator, in the whitespace-sensitive slots (radical degree, n-ary limit, function name) and as the n-ary /
+delimiter / accent character attribute; thorough adds every operand slot of every constructor and all ordered pairs
+over (mapped symbols + their unmapped block neighbours). REF_SYM is a frozen transcription of the documented table; a
+character outside it must pass through unchanged (or as the command the library's own table declares for it).
+
+Generic objects (families G*): the OMML objects that have no dedicated LaTeX form and are handled by the converter's
+"recurse into children" rule - limLow, limUpp, sPre, box, borderBox, groupChr, eqArr, phant - with their own property
+element present/absent and every argument (e, lim, sub, sup) absent / empty / run / symbol / two runs; alone, under the
+wrappers, in every operand slot of every constructor, with every node of the node alphabet in each of their arguments,
+as the name of a function (the way Word stores lim/max/min with a limit), nested in each other, and at depth 3. They
+have no documented template (template clause silent) but every run below them must come out once, in order, balanced.
+The "props" wrapper now also interleaves the schema's property element of every object (sSubPr, sSupPr, sSubSupPr,
+funcPr, barPr, mPr with its column properties, ctrlPr inside dPr/naryPr/accPr) and a w:rPr inside every run.
 """
 from __future__ import annotations
 
 import itertools
 import os
 import random
+import re
 from xml.etree import ElementTree as ET
 
 from verif.mc import pool as P
@@ -29,6 +53,65 @@ D_CHR = ["absent", "noval", "[", "|", ""]
 D_END = {"[": "]", "|": "|", "": ""}
 ACC_CHR = ["absent", "noval", "̃", "⃗", "x"]
 FNAMES = ["sin", "lim", "fn"]
+W = "{http://schemas.openxmlformats.org/wordprocessingml/2006/main}"
+
+# frozen transcription of the documented Greek / symbol table (code point -> command)
+REF_SYM = {chr(int(k, 16)): v for k, v in (x.split("=", 1) for x in (
+    "00AC=\\neg 00B1=\\pm 00B7=\\cdot 00D7=\\times 00F7=\\div "
+    "0391=A 0392=B 0393=\\Gamma 0394=\\Delta 0395=E 0396=Z 0397=H 0398=\\Theta 0399=I 039A=K 039B=\\Lambda 039C=M "
+    "039D=N 039E=\\Xi 039F=O 03A0=\\Pi 03A1=P 03A3=\\Sigma 03A4=T 03A5=\\Upsilon 03A6=\\Phi 03A7=X 03A8=\\Psi "
+    "03A9=\\Omega 03B1=\\alpha 03B2=\\beta 03B3=\\gamma 03B4=\\delta 03B5=\\epsilon 03B6=\\zeta 03B7=\\eta "
+    "03B8=\\theta 03B9=\\iota 03BA=\\kappa 03BB=\\lambda 03BC=\\mu 03BD=\\nu 03BE=\\xi 03BF=o 03C0=\\pi "
+    "03C1=\\rho 03C2=\\varsigma 03C3=\\sigma 03C4=\\tau 03C5=\\upsilon 03C6=\\phi 03C7=\\chi 03C8=\\psi "
+    "03C9=\\omega 2102=\\mathbb{C} 2115=\\mathbb{N} 211A=\\mathbb{Q} 211D=\\mathbb{R} 2124=\\mathbb{Z} "
+    "2190=\\leftarrow 2192=\\rightarrow 2194=\\leftrightarrow 21D0=\\Leftarrow 21D2=\\Rightarrow "
+    "21D4=\\Leftrightarrow 2200=\\forall 2202=\\partial 2203=\\exists 2205=\\emptyset 2207=\\nabla 2208=\\in "
+    "2209=\\notin 2213=\\mp 221E=\\infty 2227=\\land 2228=\\lor 2229=\\cap 222A=\\cup 2248=\\approx "
+    "2260=\\neq 2261=\\equiv 2264=\\leq 2265=\\geq 2282=\\subset 2283=\\supset 2286=\\subseteq "
+    "2287=\\supseteq").split())}
+assert len(REF_SYM) == 87 and all(REF_SYM[k] == v for k, v in SYM.items())
+BRACKETS = "()[]{}"
+# Unicode blocks the table touches (every code point: mapped symbols AND their unmapped neighbours)
+SYMBOL_BLOCKS = [(0x00A0, 0x00FF), (0x0370, 0x03FF), (0x2100, 0x214F), (0x2190, 0x21FF), (0x2200, 0x22FF)]
+EXTRA_BLOCKS = [(0x0300, 0x036F), (0x2000, 0x206F), (0x20D0, 0x20FF), (0x2300, 0x23FF), (0x27C0, 0x27EF), (0x2900, 0x297F),
+                (0x2980, 0x29FF), (0x2A00, 0x2AFF), (0x1D400, 0x1D7FF)]
+EXTRA_SAMPLE = [0x09, 0x0A, 0x0302, 0x0303, 0x0338, 0x1680, 0x2002, 0x2009, 0x200B, 0x2028, 0x2032, 0x2061, 0x2062, 0x20D7,
+                0x2329, 0x23DE, 0x23DF, 0x27E8, 0x27E9, 0x27F6, 0x2A00, 0x2A0C, 0x2AFF, 0x3000, 0x4E2D, 0xFB01, 0xFEFF, 0xFFFD,
+                0x1D400, 0x1D465, 0x1D6FC, 0x1D7FF, 0x1F600, 0x10FFFF]
+
+
+def char_alphabet(tier):
+    """The character alphabet of the T families, in code point order (label characters excluded)."""
+    cps = list(range(0x20, 0x7F))
+    for a, b in SYMBOL_BLOCKS:
+        cps += range(a, b + 1)
+    cps += EXTRA_SAMPLE
+    if tier != "quick":
+        for a, b in EXTRA_BLOCKS:
+            cps += range(a, b + 1)
+    return [chr(c) for c in sorted(set(cps)) if chr(c) not in UNIQ]
+
+
+def neighbour_alphabet():
+    """mapped symbols and the unmapped code points within distance 2 of a mapped one (same blocks)"""
+    cps = set()
+    for c in REF_SYM:
+        cps.update(range(ord(c) - 2, ord(c) + 3))
+    return [chr(c) for c in sorted(cps) if chr(c) not in UNIQ]
+
+
+# OMML objects without a dedicated LaTeX form: tag -> (argument element names in schema order, property children)
+GENERIC = {
+    "limLow": (["e", "lim"], []),
+    "limUpp": (["e", "lim"], []),
+    "sPre": (["sub", "sup", "e"], []),
+    "box": (["e"], [("opEmu", "1"), ("noBreak", "0")]),
+    "borderBox": (["e"], [("hideTop", "1"), ("strikeH", "1")]),
+    "groupChr": (["e"], [("chr", "\u23df"), ("pos", "bot"), ("vertJc", "top")]),
+    "eqArr": (["e", "e"], [("baseJc", "center"), ("rSp", "3")]),
+    "phant": (["e"], [("zeroWid", "1"), ("transp", "1")]),
+}
+GTAGS = list(GENERIC)
 
 # ---------------------------------------------------------------- grammar
 
@@ -123,6 +206,118 @@ def positions(struct_kind):
 KINDS = ["f", "sSup", "sSub", "sSubSup", "rad", "nary", "d", "m", "func", "bar", "acc"]
 
 
+def G(tag, ops, pr=1):
+    return ["g", tag, pr, list(ops)]
+
+
+def gpositions(tag):
+    """argument slots of a generic object (the other arguments hold one labelled run), with and without its property element"""
+    names = GENERIC[tag][0]
+    L = [R("L")]
+    out = []
+    for i in range(len(names)):
+        for pr in (1, 0):
+            out.append(lambda x, i=i, pr=pr: G(tag, [x if j == i else L for j in range(len(names))], pr))
+    return out
+
+
+def generic_nodes():
+    """one representative per generic object (every argument = one labelled run)"""
+    L = [R("L")]
+    return [G(tag, [L] * len(GENERIC[tag][0])) for tag in GTAGS]
+
+
+def text_cases(tier):
+    """T families: the character alphabet through every place where text reaches the symbol conversion"""
+    L = [R("L")]
+    for c in char_alphabet(tier):
+        yield "T1", ["omath", [["r", [c]]]]
+        yield "T2", ["omath", [["r", [0, c, 0]]]]
+        yield "T3", ["omath", [["r", ["\u03b1", c, "\u2192"]]]]
+        yield "T4", ["omath", [["f", [["r", [0, c]]], L]]]
+        yield "T5", ["omath", [["rad", [["r", [c]]], L]]]
+        yield "T5", ["omath", [["nary", "\u2211", [["r", [c]]], None, L]]]
+        yield "T5", ["omath", [["func", [["r", [c]]], L]]]
+        yield "T6", ["omath", [["nary", c, None, None, L]]]
+        yield "T6", ["omath", [["d", c, c, [L]]]]
+        yield "T6", ["omath", [["acc", c, L]]]
+        yield "T6", ["para", [["r", [c, 0]], ["r", [c]]]]
+        yield "T6", ["props", [["r", [0, c]], ["sSup", [["r", [c]]], L]]]
+    if tier != "quick":
+        for c in char_alphabet("quick"):
+            for k in KINDS:
+                for mk in positions(k):
+                    yield "T7", ["omath", [mk([["r", [c]]])]]
+            for tag in GTAGS:
+                for mk in gpositions(tag)[::2]:
+                    yield "T7", ["omath", [mk([["r", [c]]])]]
+        nb = neighbour_alphabet()
+        for a, b in itertools.product(nb, nb):
+            yield "T8", ["omath", [["r", [a, b]]]]
+    else:
+        # quick: ordered pairs (mapped representative, neighbour) inside one run, both orders
+        for c in neighbour_alphabet():
+            for m_ in ("\u0391", "\u2287", "\u00ac"):
+                yield "T8", ["omath", [["r", [m_, c]], ["r", [c, m_, c]]]]
+
+
+def generic_cases(tier):
+    """G families: OMML objects that only the converter's default rule handles"""
+    quick = tier == "quick"
+    L = [R("L")]
+    gops = [None, [], L, [R("\u03b1")], [R("L"), R("L")]]
+    N1 = node_alphabet()
+    GN = generic_nodes()
+    structs1 = [n for n in N1 if n[0] != "r"]
+    # G1: every object x property element present/absent x every argument over the operand lattice; all wrappers
+    for tag in GTAGS:
+        for pr in (0, 1):
+            for ops in itertools.product(gops if not quick or len(GENERIC[tag][0]) < 3 else gops[:4], repeat=len(GENERIC[tag][0])):
+                for w in ("omath", "para", "props"):
+                    yield "G1", [w, [G(tag, ops, pr)]]
+    # G2: a generic object in every operand slot of every constructor
+    for k in KINDS:
+        for mk in positions(k):
+            for g in GN:
+                yield "G2", ["omath", [mk([g])]]
+                yield "G2", ["omath", [mk([g, R("L")]), R(")")]]
+                yield "G2", ["props", [mk([R("L"), g]), R("L")]]
+    # G3: every node of the node alphabet (and every generic object) in every argument of every generic object
+    for tag in GTAGS:
+        for mk in gpositions(tag):
+            for n in N1 + GN:
+                yield "G3", ["omath", [mk([n])]]
+                yield "G3", ["omath", [mk([n, R("L")]), R(")")]]
+                yield "G3", ["omath", [R("L"), mk([R("L"), n]), R("]"), R("L")]]
+    # G4: a limit / grouping object as the NAME of a function (how Word stores lim, max, min with a limit expression)
+    for tag in GTAGS:
+        names = GENERIC[tag][0]
+        for fn in FNAMES:
+            for x in gops:
+                for pr in (0, 1):
+                    ops = [[R(fn)] if nm == "e" and i == names.index("e") else x for i, nm in enumerate(names)]
+                    for w in ("omath", "props"):
+                        yield "G4", [w, [["func", [G(tag, ops, pr)], L]]]
+                        yield "G4", [w, [["func", [G(tag, ops, pr)], [R("L"), ["sSub", L, L]]], R("L")]]
+    # G5: depth 3 through a generic object: slot(generic-slot(n)) and generic-slot(slot(n))
+    inner = structs1[::3] if quick else structs1
+    for k in KINDS:
+        for mk in positions(k):
+            for tag in GTAGS:
+                for gk in (gpositions(tag)[::2] if quick else gpositions(tag)):
+                    for n in inner:
+                        yield "G5", ["omath", [mk([gk([n])])]]
+                        yield "G5", ["omath", [gk([mk([n])]), R(")")]]
+    if not quick:
+        # G6: generic in generic in generic slot, node alphabet at the bottom
+        for t1 in GTAGS:
+            for g1 in gpositions(t1)[::2]:
+                for t2 in GTAGS:
+                    for g2 in gpositions(t2)[::2]:
+                        for n in N1:
+                            yield "G6", ["omath", [g1([g2([n])]), R(")")]]
+
+
 def enumerate_cases(tier):
     """Yield (family, tree). tree = [wrapper, [nodes]]"""
     quick = tier == "quick"
@@ -161,6 +356,8 @@ def enumerate_cases(tier):
                         yield "D3", ["omath", [mk([mk2([n])])]]
                         if not quick:
                             yield "D3", ["omath", [mk([mk2([n]), R("L")]), R(")")]]
+    yield from text_cases(tier)
+    yield from generic_cases(tier)
     if not quick:
         # B4: all 4-sequences over the bracket / radical / run sub-alphabet (pending-closer stack interplay)
         Nq = [n for n in N1 if n[0] == "rad" or (n[0] == "r" and n[1] in ("L", ")", "]", "}", "(", "["))] + [["f", [R("L")], [R(")")]],
@@ -201,9 +398,25 @@ class Labeler:
             return c
         if t in SYM:
             self.syms[t] = self.syms.get(t, 0) + 1
-        if t in ("{", "}"):
+        if "{" in t or "}" in t:
             self.has_brace = True
         return t
+
+    def run_text(self, spec):
+        """spec: legacy token (str) or list of pieces (0 = unique label, str = literal)"""
+        if isinstance(spec, str):
+            return self.text(spec)
+        return "".join(self.text("L") if p == 0 else self._lit(p) for p in spec)
+
+    def _lit(self, p):
+        if not isinstance(p, str):
+            raise ValueError(p)
+        for c in p:
+            if c in SYM:
+                self.syms[c] = self.syms.get(c, 0) + 1
+        if "{" in p or "}" in p:
+            self.has_brace = True
+        return p
 
 
 def build(tree, lab):
@@ -220,6 +433,11 @@ def build(tree, lab):
         # callers pass either the oMathPara or the oMath; the para wrapper must not change the result
         return top
     return root
+
+
+# property element of the objects that the grammar otherwise builds without one (only under the "props" wrapper)
+_PROPS_PR = {"sSub": [], "sSup": [], "sSubSup": ["alnScr"], "func": [], "bar": ["pos"],
+             "m": ["baseJc", "plcHide", "mcs/mc/mcPr/count", "mcs/mc/mcPr/mcJc"]}
 
 
 def _operand(parent, name, val, lab, props):
@@ -239,10 +457,38 @@ def _node(parent, n, lab, props=False):
         if props:
             rp = ET.SubElement(r, M + "rPr")
             ET.SubElement(rp, M + "sty").set(M + "val", "p")
+            wp = ET.SubElement(r, W + "rPr")
+            ET.SubElement(wp, W + "rFonts").set(W + "ascii", "Cambria Math")
+            ET.SubElement(wp, W + "i")
         t = ET.SubElement(r, M + "t")
-        t.text = lab.text(n[1])
+        t.text = lab.run_text(n[1])
         return
+    if k == "g":
+        tag, pr, ops = n[1], n[2], n[3]
+        names, prkids = GENERIC[tag]
+        el = ET.SubElement(parent, M + tag)
+        if pr or props:
+            pe = ET.SubElement(el, M + tag + "Pr")
+            if pr:
+                for nm, v in prkids:
+                    ET.SubElement(pe, M + nm).set(M + "val", v)
+            ET.SubElement(pe, M + "ctrlPr")
+        for nm, v in zip(names, ops):
+            _operand(el, nm, v, lab, props)
+        return
+    if k not in KINDS:
+        raise ValueError(k)
+    if k in ("nary", "d", "acc") and any("{" in v or "}" in v for v in n[1:3] if isinstance(v, str)):
+        lab.has_brace = True     # a literal brace given as operator / delimiter / accent character
     el = ET.SubElement(parent, M + k)
+    if props and k in _PROPS_PR:
+        pe = ET.SubElement(el, M + k + "Pr")
+        for path in _PROPS_PR[k]:
+            q = pe
+            for nm in path.split("/"):
+                q = ET.SubElement(q, M + nm)
+            q.set(M + "val", "1")
+        ET.SubElement(pe, M + "ctrlPr")
     if k == "f":
         if props:
             pr = ET.SubElement(el, M + "fPr")
@@ -275,6 +521,9 @@ def _node(parent, n, lab, props=False):
                 if ch != "noval":
                     c.set(M + "val", ch)
             ET.SubElement(pr, M + "limLoc").set(M + "val", "undOvr")
+            if props:
+                ET.SubElement(pr, M + "grow").set(M + "val", "1")
+                ET.SubElement(pr, M + "ctrlPr")
         _operand(el, "sub", n[2], lab, props)
         _operand(el, "sup", n[3], lab, props)
         _operand(el, "e", n[4], lab, props)
@@ -288,6 +537,9 @@ def _node(parent, n, lab, props=False):
                 c = ET.SubElement(pr, M + nm)
                 if v != "noval":
                     c.set(M + "val", v if nm == "begChr" else D_END.get(v, v))
+            if props:
+                ET.SubElement(pr, M + "grow").set(M + "val", "1")
+                ET.SubElement(pr, M + "ctrlPr")
         for ev in n[3]:
             _operand(el, "e", ev if ev is not None else [], lab, props)
     elif k == "m":
@@ -308,6 +560,8 @@ def _node(parent, n, lab, props=False):
                 c = ET.SubElement(pr, M + "chr")
                 if ch != "noval":
                     c.set(M + "val", ch)
+            if props:
+                ET.SubElement(pr, M + "ctrlPr")
         _operand(el, "e", n[2], lab, props)
     else:
         raise ValueError(k)
@@ -326,8 +580,20 @@ _FN = {"sin": "\\sin", "cos": "\\cos", "tan": "\\tan", "log": "\\log", "ln": "\\
        "max": "\\max", "min": "\\min"}
 
 
+class Texts:
+    """iterator over the concrete run texts in source order + reference options"""
+
+    def __init__(self, texts, conv=None, op_conv=True):
+        self.it = iter(texts)
+        self.conv = conv or (lambda c: REF_SYM.get(c, c))
+        self.op_conv = op_conv      # n-ary operator character passed through the symbol table (else verbatim)
+
+    def __next__(self):
+        return next(self.it)
+
+
 def ref_latex(nodes, texts):
-    """texts: iterator over the concrete run texts in source order."""
+    """texts: a Texts over the concrete run texts in source order."""
     return "".join(_ref(n, texts) for n in nodes)
 
 
@@ -345,9 +611,11 @@ def _ref(n, texts):
     k = n[0]
     if k == "r":
         t = next(texts)
-        if t in "()[]{}" and t != "":
+        if any(c in BRACKETS for c in t):
             raise NotWellFormed("bracket run")   # interaction with the malformed-sqrt repair is not template-defined
-        return "".join(SYM.get(c, c) for c in t)
+        return "".join(texts.conv(c) for c in t)
+    if k == "g":
+        raise NotWellFormed("object without a documented LaTeX form")
     if k == "f":
         a = _req(n[1], texts); b = _req(n[2], texts)
         return "\\frac{%s}{%s}" % (a, b)
@@ -366,7 +634,7 @@ def _ref(n, texts):
     if k == "nary":
         if n[1] in ("absent", "nochr", "noval"):
             raise NotWellFormed("nary without operator character")
-        op = _OP.get(n[1], n[1])
+        op = _OP.get(n[1]) or ("".join(texts.conv(c) for c in n[1]) if texts.op_conv else n[1])
         s = _opt(n[2], texts); p = _opt(n[3], texts); e = _req(n[4], texts)
         out = op
         if s.strip():
@@ -456,15 +724,61 @@ def evaluate(tree, seed=0):
     lab2 = Labeler(seed)
     texts = []
     _collect(tree[1], lab2, texts)
+    conv = _converter()
+    # emit: every run's text, bracket-free segment by segment, in source order
+    pos = 0
+    for t in texts:
+        for seg in _BRACKET_SPLIT.split(t):
+            want = "".join(conv(c) for c in seg).strip()
+            if not want:
+                continue
+            i = out.find(want, pos)
+            if i < 0:
+                fails.append(("emit", f"text {want!r} of run {t!r} missing (or out of source order) in {out!r}"))
+                break
+            pos = i + len(want)
+        else:
+            continue
+        break
     try:
-        exp = ref_latex(tree[1], iter(texts))
-        if _has_lone_bracket_rad(tree[1]):
-            raise NotWellFormed("x")
-        if out != exp:
+        exp = ref_latex(tree[1], Texts(texts, conv))
+        if out != exp and out != ref_latex(tree[1], Texts(texts, conv, op_conv=False)):
             fails.append(("template", f"got {out!r}, documented form {exp!r}"))
     except NotWellFormed:
         pass
     return fails, out
+
+
+_BRACKET_SPLIT = re.compile("[" + re.escape(BRACKETS) + "]")
+
+
+def _converter():
+    """char -> expected rendering: the frozen table first; a character outside it passes through unchanged unless the
+    library's own table declares a command for it (extending the table is not a violation)."""
+    try:
+        from sharepoint2text.parsing.extractors.util.omml_to_latex import GREEK_TO_LATEX as lib
+        lib = {k: v for k, v in lib.items() if isinstance(k, str) and isinstance(v, str) and k not in REF_SYM}
+    except Exception:  # noqa
+        lib = {}
+    if not lib:
+        return lambda c: REF_SYM.get(c, c)
+    return lambda c: REF_SYM.get(c) or lib.get(c, c)
+
+
+def operand_lists(n):
+    """the operand lists of a structure node in source (= build) order"""
+    k = n[0]
+    if k == "nary":
+        return list(n[2:5])
+    if k == "d":
+        return list(n[3])
+    if k == "m":
+        return [cell for row in n[1] for cell in row]
+    if k == "acc":
+        return [n[2]]
+    if k == "g":
+        return list(n[3])
+    return list(n[1:])
 
 
 def _collect(nodes, lab, texts):
@@ -472,20 +786,10 @@ def _collect(nodes, lab, texts):
         if n is None:
             continue
         if n[0] == "r":
-            texts.append(lab.text(n[1]))
+            texts.append(lab.run_text(n[1]))
         else:
-            for x in n[1:]:
-                if isinstance(x, list):
-                    if x and isinstance(x[0], list) and (not x[0] or isinstance(x[0][0], list) or x[0] == []) and n[0] in ("d", "m"):
-                        # d: list of operands; m: list of rows of operands
-                        for y in x:
-                            if n[0] == "m":
-                                for z in y:
-                                    _collect(z or [], lab, texts)
-                            else:
-                                _collect(y or [], lab, texts)
-                    else:
-                        _collect(x, lab, texts)
+            for x in operand_lists(n):
+                _collect(x or [], lab, texts)
 
 
 def _has_lone_bracket_rad(nodes):
@@ -532,11 +836,22 @@ def shrinks(case):
                 c = list(case); c[i] = s
                 yield c
         return
+    if not (isinstance(case, list) and len(case) == 2):
+        yield from generic_shrinks(case)
+        return
     if case[0] != "omath":
         yield ["omath", case[1]]
     yield from generic_shrinks(case)
 
     def subst(x):
+        if isinstance(x, list) and len(x) == 4 and x[0] == "g" and isinstance(x[3], list):
+            if x[2]:
+                yield x[:2] + [0] + x[3:]
+            for i, o in enumerate(x[3]):
+                if o is not None:
+                    yield x[:3] + [x[3][:i] + [None] + x[3][i + 1:]]
+        if isinstance(x, list) and len(x) == 2 and x[0] == "r" and isinstance(x[1], str) and x[1] != "L" and x[1] in SYM:
+            yield ["r", "L"]
         if isinstance(x, list) and x and x[0] in KINDS:
             for i in range(1, len(x)):
                 if isinstance(x[i], list) and x[0] not in ("d", "m"):
@@ -616,10 +931,28 @@ def run(ctx):
            "rule": "every OMML tree of the constructor grammar (families A: single structure x operand lattice incl. absent/empty/"
                    "bracket/symbol operands and every chr/begChr/endChr presence variant; Aw: oMathPara/property-element wrappers; "
                    "B2/B3: all 2- and 3-sequences over a ~65-node alphabet; C2/D3/E4: every operand slot nested to depth 2/3/4) "
-                   "built as ElementTree and converted by the real omml_to_latex; distinct_nontrivial = distinct LaTeX outputs",
+                   "built as ElementTree and converted by the real omml_to_latex; T1-T8: every character of the text alphabet "
+                   "(all code points of the Unicode blocks the symbol table touches = every mapped symbol and its unmapped "
+                   "neighbours, printable ASCII, spaces, samples of other planes) alone / between labels / between mapped symbols "
+                   "in one run, in a numerator, in the whitespace-sensitive slots, as n-ary / delimiter / accent character, "
+                   "thorough: in every operand slot and all ordered pairs over the neighbour alphabet; G1-G6: the OMML objects "
+                   "without a dedicated form (limLow limUpp sPre box borderBox groupChr eqArr phant) x property element x "
+                   "argument lattice, in every slot of every constructor, holding every node of the alphabet, as function "
+                   "name, nested; distinct_nontrivial = distinct LaTeX outputs",
            "samples": samples, "families": fam, "exhaustive": True,
-           "bounds": {"tier": ctx.tier, "depth": 3 if ctx.quick else 4, "sequence_length": 3}}
+           "bounds": {"tier": ctx.tier, "depth": 3 if ctx.quick else 4, "sequence_length": 3,
+                      "text_alphabet_chars": len(char_alphabet(ctx.tier)), "mapped_symbols": len(REF_SYM),
+                      "neighbour_alphabet_chars": len(neighbour_alphabet()),
+                      "symbol_blocks": ["U+%04X-U+%04X" % b for b in SYMBOL_BLOCKS],
+                      "extra_blocks": ["U+%04X-U+%04X" % b for b in EXTRA_BLOCKS] if not ctx.quick else "sample of %d" % len(EXTRA_SAMPLE),
+                      "generic_objects": GTAGS, "generic_argument_lattice": "absent, empty, run, symbol, two runs"}}
     return {"coverage": cov, "failures": fails, "harness_errors": herr,
             "assumptions": ["ElementTree built in memory is equivalent to the tree ET parses from XML text",
                             "reference templates transcribed from the module docstring; compared only on the well-formed subset "
-                            "(all mandatory operands present, operator characters given, no bracket runs)"]}
+                            "(all mandatory operands present, operator characters given, no bracket runs, no object without a "
+                            "documented form); an n-ary operator character outside the documented five may be rendered verbatim "
+                            "or through the symbol table",
+                            "the symbol table is a frozen transcription (REF_SYM, 87 entries); a character outside it must pass "
+                            "through unchanged or as the command the library's own table declares for it",
+                            "run texts are limited to XML-representable characters; label characters (digits, U+00C0-U+00DE) "
+                            "are not part of the character alphabet"]}
